@@ -36,7 +36,7 @@ LAZY = ("T", "inv", "sqrt", "eigval", "eigvec", "factor", "lu_and_piv", "__hash_
 
 
 def gen_cases(tier: str, seed: int):
-    n = {"quick": 200, "thorough": 2500}[tier]
+    n = {"quick": 200, "thorough": 20000}[tier]
     kinds = list(matgen.ALL_LEAVES)
     i = 0
     for kind in ("ops", "order", "eq", "nearmiss", "write"):
